@@ -1,5 +1,6 @@
 import Driver.TabD
 import IGVerif.Spec.Shape
+import Driver.GenSup
 /-! Property oracles evaluated on the implementation's table (rows as key ↦ cell maps). -/
 namespace Drv
 open Lean IGVerif
@@ -140,7 +141,7 @@ def genTabStmt (i : Nat) : G (Stmt × String) := do
   match i % 4 with
   | 0 => do let s ← genC01 { suffixes := false, maxDepth := 3, maxComps := 4 }; pure (s, "simple")
   | 1 => do let s ← genSupC02 2; pure (s, "nested")
-  | 2 => do let s ← genNested { depth := 1, pairs := true }; pure (s, "pairs")
+  | 2 => do let s ← genNestedSup { depth := 1, pairs := true }; pure (s, "pairs")
   | _ => do let s ← genSupC02 3; pure (s, "nested-deep")
 
 /-- bound on the number of rows a statement produces (product of alternatives), from the model -/
